@@ -442,6 +442,41 @@ def run(prog, pid, clauses):
                         hit = class_rooted(n.target) or (class_rooted(n.target.value) if isinstance(n.target, ast.Subscript) else None)
                     if hit and (hit[0] not in class_attrs or hit[1] in class_attrs[hit[0]]):
                         bad.append("%s.%s (class-level state) written through the class in %s.%s line %d" % (hit[0], hit[1], mod, fn.name, n.lineno))
+        # ... and state attached to any object that is not the function's own: an attribute is assigned (or set with
+        # setattr) only on `self` (and what hangs off it), on the lexer token handed to a token rule (`t`), or on an object
+        # CONSTRUCTED in the same function (bound from a call of a Capitalised name / ...parse_args()).  Anything else - a
+        # class fetched from a registry, a module, a function object, an argument - is shared by every parser of the process.
+        for mod, tree in prog.trees.items():
+            if not mod.startswith(PKG) or mod.endswith(".parsetab"):
+                continue
+            skip = set()
+            for fn in ast.walk(tree):
+                if isinstance(fn, ast.FunctionDef) and fn.name in decorators:
+                    skip.update(id(x) for x in ast.walk(fn))
+            for fn in ast.walk(tree):
+                if not isinstance(fn, (ast.FunctionDef, ast.AsyncFunctionDef)) or id(fn) in skip:
+                    continue
+                constructed = set()
+                for n in ast.walk(fn):
+                    if isinstance(n, ast.Assign) and isinstance(n.value, ast.Call):
+                        f = n.value.func
+                        nm = f.id if isinstance(f, ast.Name) else (f.attr if isinstance(f, ast.Attribute) else "")
+                        if nm[:1].isupper() or nm in ("parse_args", "init", "deepcopy", "copy"):
+                            constructed.update(t.id for t in n.targets if isinstance(t, ast.Name))
+                for n in ast.walk(fn):
+                    base = None
+                    if isinstance(n, ast.Attribute) and isinstance(n.ctx, (ast.Store, ast.Del)):
+                        base = n.value
+                    elif isinstance(n, ast.Call) and isinstance(n.func, ast.Name) and n.func.id in ("setattr", "delattr") and n.args:
+                        base = n.args[0]
+                    if base is None:
+                        continue
+                    while isinstance(base, (ast.Attribute, ast.Subscript)):
+                        base = base.value
+                    if isinstance(base, ast.Name) and (base.id in ("self", "t") or base.id in constructed):
+                        continue
+                    bad.append("attribute set on an object that is not the function's own (%s) in %s.%s line %d: state shared beyond this parser" % (
+                        ast.unparse(base)[:40], mod, fn.name, n.lineno))
         out.append(ob("class-level-mutable-state", not bad, dict(offenders=sorted(set(bad))), funcs, pid))
 
     if "global-purity" in clauses:
@@ -743,6 +778,47 @@ def run(prog, pid, clauses):
                             bad.append("to_dict copies field values (%s at line %d): later ALTER / INDEX records would not reach the reported dict" % (nm, n.lineno))
         out.append(ob("alter-handlers-mutate-in-place", not bad, dict(methods=sorted(funcs), offenders=bad), funcs, pid))
 
+    if "dump-leaves-result-alone" in clauses:
+        # C13 / C14 / C19 / C12: run(dump=True) hands THE RESULT IT RETURNS to dump_data_to_file.  Obligation: in that
+        # function the `data` parameter is passed to json.dump and otherwise only inspected (isinstance / len / in / [] load /
+        # .get .keys .values .items) - not indexed for writing, not mutated through a method, not handed to another function
+        # (which might prune / sort / convert it in place), not rebound.
+        bad, funcs = [], set()
+        oc_mod = PKG + ".output.core"
+        fn = None
+        for n in prog.trees.get(oc_mod, ast.Module(body=[], type_ignores=[])).body:
+            if isinstance(n, ast.FunctionDef) and n.name == "dump_data_to_file":
+                fn = n
+        if fn is None:
+            bad.append("output.core.dump_data_to_file not found")
+        else:
+            funcs.add("output.core.dump_data_to_file")
+            params = [a.arg for a in fn.args.args]
+            dname = params[2] if len(params) >= 3 else None
+            if dname is None:
+                bad.append("dump_data_to_file has no third (data) parameter")
+            parents = {}
+            for n in ast.walk(fn):
+                for c in ast.iter_child_nodes(n):
+                    parents[id(c)] = n
+            for n in ast.walk(fn):
+                if isinstance(n, ast.Name) and n.id == dname:
+                    par = parents.get(id(n))
+                    if isinstance(n.ctx, ast.Store):
+                        bad.append("line %d: %s is rebound" % (n.lineno, dname))
+                    elif isinstance(par, ast.Call) and n in par.args and (attr_path(par.func) in (("json", "dump"), ("json", "dumps"))
+                                                                           or (isinstance(par.func, ast.Name) and par.func.id in ("isinstance", "len", "type", "bool"))):
+                        continue
+                    elif isinstance(par, (ast.Compare, ast.BoolOp, ast.UnaryOp, ast.If, ast.IfExp)):
+                        continue        # read-only inspection
+                    elif isinstance(par, ast.Subscript) and isinstance(par.ctx, ast.Load):
+                        continue
+                    elif isinstance(par, ast.Attribute) and par.attr in ("get", "keys", "values", "items") :
+                        continue
+                    else:
+                        bad.append("line %d: %s is used other than as the argument of json.dump (%s)" % (n.lineno, dname, ast.unparse(par)[:60] if par is not None else "?"))
+        out.append(ob("dump-leaves-result-alone", not bad, dict(offenders=bad), funcs, pid))
+
     if "no-shared-mutable-skeleton" in clauses:
         # C14 / C15 / C03: a module-level or class-level dict / list / set display is ONE object for the whole process.
         # Looking things up in it is fine; letting it - or, through a shallow copy, the mutable values nested in it -
@@ -934,6 +1010,22 @@ def run(prog, pid, clauses):
                 doc = ast.get_docstring(fref.node)
                 if not doc or ":" not in doc:
                     bad.append("%s is named like a grammar rule but has no production docstring (%s)" % (m, view.where(fref, fref.node)))
+        # the LR tables and the parse stacks are PLY's: the shipped parsetab.py stores them in a different shape than a
+        # fresh generation does (rows only for states that have entries), and with a valid cache the rows are shared by
+        # every parser object of the process.  Repository code uses the parser object only through parse(...).
+        for mod, tree in prog.trees.items():
+            if not mod.startswith(PKG) or mod.endswith(".parsetab"):
+                continue
+            for fn in ast.walk(tree):
+                if not isinstance(fn, ast.FunctionDef):
+                    continue
+                for n in ast.walk(fn):
+                    if isinstance(n, ast.Attribute):
+                        pth = attr_path(n)
+                        if pth and len(pth) >= 3 and pth[-2] == "yacc" and pth[-1] != "parse" and pth[0] == "self":
+                            bad.append("%s.%s line %d reads PLY's parser internals (%s)" % (mod, fn.name, n.lineno, ".".join(pth)))
+                        if pth and pth[-1] in ("statestack", "symstack", "productions", "defaulted_states") or (pth and len(pth) >= 2 and pth[-2:] in (("yacc", "action"), ("yacc", "goto"))):
+                            bad.append("%s.%s line %d reads PLY's parser internals (%s)" % (mod, fn.name, n.lineno, ".".join(pth)))
         if seen_calls["yacc"] != 1:
             bad.append("expected exactly one yacc.yacc call on the construct path, found %d" % seen_calls["yacc"])
         out.append(ob("ply-table-cache-arguments-at-defaults", not bad, dict(offenders=sorted(set(bad)), calls=seen_calls), funcs, pid))
